@@ -64,7 +64,9 @@ class FnExec(ExprMixin, CallMixin, StmtMixin):
         )
 
     def safety(self, st: State, goal: Term, what: str):
-        self.oblige(st, goal, f"safety/{what}@L{self.cur_line}", "safety", text=what)
+        slug = "-".join(what.replace("(", " ").replace(")", " ").split()[:4])
+        slug = "".join(ch if ch.isalnum() or ch == "-" else "" for ch in slug)
+        self.oblige(st, goal, f"safety/{slug}@L{self.cur_line}", "safety", text=what)
 
     # ------------------------------------------------------------------ fresh values
     def fresh(self, base, pt: PT, st: State = None):
